@@ -479,6 +479,9 @@ func registryRepositoryCase(name, sub string) {
 	id := run.NewID()
 	obs := "ERR"
 	reg, err := remote.NewRegistry(name)
+	if (err == nil) != (registryVerdict(name) == 1) {
+		run.OracleFail(id, "new-registry", fmt.Sprintf("NewRegistry(%q) accepted=%v, the registry grammar says %v", name, err == nil, registryVerdict(name) == 1), map[string]string{"op": "N", "kind": "reg", "input": name, "reference": sub})
+	}
 	if err == nil {
 		obs = "REGOK"
 		run.Count("newregistry_ok")
